@@ -138,7 +138,7 @@ LAZY_MAKERS = ["3ɾ", "2ʀ", "4ɾ", "⟨1|2|3⟩ ƛ › ;", "3ɾ ƛ d ;", "3ɾ '
                "3ɾ ɖ+", "4ɾ ɖ*", "⟨1|2|3⟩ ɖ-", "3ɾ ⁽› Z", "3ɾ ⁽₂ F", "3ɾ λ › ; M", "3ɾ ⁽› ẇ", "3ɾ ⁽d Ẇ", "⟨2|1|3⟩ ⁽N ṡ",
                "3ɾ λ2| + ; ɖ" if False else "3ɾ ɖ‹", "⟨1|1⟩ ⁽+ Ḟ 4 Ẏ", "3ɾ ⁽› ÞZ" if False else "3ɾ v›"]
 # terminating recursion: the lambda calls itself (x) until its argument reaches 0
-RECURSIONS = ["3 λ : [ ‹ x ] ; †", "2 λ : [ ‹ x | 7 ] ; †", "⟨2|1⟩ ƛ : [ ‹ x ] ;", "2 λ : [ ‹ x X ] 5 ; †", "3 λ : 0 > [ ‹ v x ] ; †",
+RECURSIONS = ["60 λ ‹ : [ x ] ; †", "300 λ ‹ : [ x ] ; †", "450 λ ‹ : [ x ] ; †", "450 λ ‹ : [ x ] ; †", "3 λ : [ ‹ x ] ; †", "2 λ : [ ‹ x | 7 ] ; †", "⟨2|1⟩ ƛ : [ ‹ x ] ;", "2 λ : [ ‹ x X ] 5 ; †", "3 λ : 0 > [ ‹ v x ] ; †",
               "2 λ : [ ‹ ⁽ x † ] ; †", "3 λ : [ ‹ x , ] ; †"]
 MODS1 = ["v", "⁽", "&", "~", "ß", "ƒ", "ɖ"]
 MODS2 = ["₌", "‡", "₍"]
